@@ -200,7 +200,10 @@ theorem C17_execute_safe (S : Segmenter) (U : UData) (cfg : EdCfg) (hv : ∀ t, 
     | none => exact h1
     | some t =>
       simp only [wp_bind, wp_pure]
-      exact safe_editYank S U cfg t a n hnp h1
+      have h2 : EdWF cfg { s1 with ring := s1.ring.yankCount n } :=
+        EdWF.mk' h1.line h1.saved h1.idx (h1.ring.yankCount n)
+      show wp (editYank S U cfg t a n) _ _ { s1 with ring := s1.ring.yankCount n }
+      exact safe_editYank S U cfg t a n hnp h2
   case viYankTo mvt =>
     unfold execute; simp only [wp_bind, wp_pure, wp_getLine]
     obtain ⟨r, hr⟩ := C03_copy_total S U mvt s.line h.line
